@@ -13,9 +13,7 @@ import (
 )
 
 type (
-	Once      = sync.Once
 	WaitGroup = sync.WaitGroup
-	Map       = sync.Map
 	Pool      = sync.Pool
 	Cond      = sync.Cond
 	Locker    = sync.Locker
@@ -23,9 +21,84 @@ type (
 
 func NewCond(l Locker) *Cond { return sync.NewCond(l) }
 
-func OnceFunc(f func()) func() { return sync.OnceFunc(f) }
+// Once: a second caller of the real sync.Once blocks inside the runtime while the
+// first one is parked at a yield point inside f - a state the scheduler cannot see.
+// The shim is a Once built from the scheduler-aware Mutex: same semantics (f runs
+// once, later callers wait for it and then see its effects, a panicking f counts as
+// done), same happens-before edges, but the waiting is visible to the scheduler.
+type Once struct {
+	m    Mutex
+	done bool
+}
 
-func OnceValue[T any](f func() T) func() T { return sync.OnceValue(f) }
+func (o *Once) Do(f func()) {
+	o.m.Lock()
+	defer o.m.Unlock()
+	if o.done {
+		return
+	}
+	defer func() { o.done = true }()
+	f()
+}
+
+func OnceFunc(f func()) func() {
+	var o Once
+	return func() { o.Do(f) }
+}
+
+func OnceValue[T any](f func() T) func() T {
+	var (
+		o Once
+		v T
+	)
+	return func() T {
+		o.Do(func() { v = f() })
+		return v
+	}
+}
+
+func OnceValues[T1, T2 any](f func() (T1, T2)) func() (T1, T2) {
+	var (
+		o  Once
+		v1 T1
+		v2 T2
+	)
+	return func() (T1, T2) {
+		o.Do(func() { v1, v2 = f() })
+		return v1, v2
+	}
+}
+
+// Map: every operation of a sync.Map is a yield point (a check-then-act on a shared
+// cache is two operations; the scheduler may run another test in between).
+type Map struct {
+	m sync.Map
+}
+
+func (m *Map) y(op string) { sched.YieldMem(uintptr(unsafe.Pointer(m)), op) }
+
+func (m *Map) Load(key any) (any, bool) { m.y("map.load"); return m.m.Load(key) }
+func (m *Map) Store(key, value any)     { m.y("map.store"); m.m.Store(key, value) }
+func (m *Map) LoadOrStore(key, value any) (any, bool) {
+	m.y("map.loadorstore")
+	return m.m.LoadOrStore(key, value)
+}
+func (m *Map) LoadAndDelete(key any) (any, bool) {
+	m.y("map.loadanddelete")
+	return m.m.LoadAndDelete(key)
+}
+func (m *Map) Delete(key any)                  { m.y("map.delete"); m.m.Delete(key) }
+func (m *Map) Swap(key, value any) (any, bool) { m.y("map.swap"); return m.m.Swap(key, value) }
+func (m *Map) CompareAndSwap(key, old, new any) bool {
+	m.y("map.cas")
+	return m.m.CompareAndSwap(key, old, new)
+}
+func (m *Map) CompareAndDelete(key, old any) bool {
+	m.y("map.cad")
+	return m.m.CompareAndDelete(key, old)
+}
+func (m *Map) Range(f func(key, value any) bool) { m.y("map.range"); m.m.Range(f) }
+func (m *Map) Clear()                            { m.y("map.clear"); m.m.Clear() }
 
 type Mutex struct {
 	mu sync.Mutex
